@@ -187,8 +187,27 @@ class Stats:
         return out
 
 
+class CaseHang(Exception):
+    '''a single case ran for CASE_LIMIT seconds (cases take milliseconds to
+    a few seconds): the code under test does not terminate on this input'''
+
+
+CASE_LIMIT = float(os.environ.get('VERIF_CASE_LIMIT', '300'))
+
+
+def _hang(_sig, _frame):
+    raise CaseHang(f'no result after {CASE_LIMIT:.0f} s')
+
+
 def run_one(part: Part, case, stats: Stats, counting=True):
     '''execute one case; update stats; raise Violation on an unlisted failure'''
+    import signal
+    import threading
+
+    watch = threading.current_thread() is threading.main_thread()
+    if watch:
+        old = signal.signal(signal.SIGALRM, _hang)
+        signal.setitimer(signal.ITIMER_REAL, CASE_LIMIT)
     try:
         out = part.execute(case)
     except HarnessError:
@@ -198,6 +217,10 @@ def run_one(part: Part, case, stats: Stats, counting=True):
     except Exception as exc:  # pylint: disable=broad-except
         out = Outcome()
         out.failures.append(crash_failure(exc, f'{stats.pid}/{part.name}'))
+    finally:
+        if watch:
+            signal.setitimer(signal.ITIMER_REAL, 0)
+            signal.signal(signal.SIGALRM, old)
     p = stats.part(part.name)
     shrinking = stats.failure is not None
     if counting and not shrinking:
